@@ -87,7 +87,8 @@ class Dense:
     def to_json(self): return {"dense": self.arr.tolist() if not np.iscomplexobj(self.arr) else [self.arr.real.tolist(), self.arr.imag.tolist()], "shape": list(self.arr.shape)}
 
 SK = {"int": "KInt", "float": "KFloat", "complex": "KComplex", "bool": "KBool", "npf64": "KNpF64",
-      "npf32": "KNpF32", "npi64": "KNpI64", "t0": "KT0", "t1": "KT1"}
+      "npf32": "KNpF32", "npi64": "KNpI64", "t0": "KT0", "t1": "KT1",
+      "npu8": "KNpI64", "npi32": "KNpI64", "tu8": "KT0", "ti64": "KT0", "npc128": "KComplex", "tc0": "KT0"}      # further integer kinds: same tag in the model (the kind does not change the value)
 
 class Scal:
     """scalar operand of a given Python kind holding an integer value (complex: Gaussian integer)"""
@@ -104,6 +105,12 @@ class Scal:
         if k == "npf64": return np.float64(v)
         if k == "npf32": return np.float32(v)
         if k == "npi64": return np.int64(v)
+        if k == "npc128": return np.complex128(v)
+        if k == "tc0": return torch.tensor(complex(v))
+        if k == "npu8": return np.uint8(v)
+        if k == "npi32": return np.int32(v)
+        if k == "tu8": return torch.tensor(int(v), dtype=torch.uint8)
+        if k == "ti64": return torch.tensor(int(v), dtype=torch.int64)
         if k == "t0": return torch.tensor(complex(v) if ttgen.np_dtype_is_complex(dtype) else float(v), dtype=dtype)
         if k == "t1": return torch.tensor([complex(v) if ttgen.np_dtype_is_complex(dtype) else float(v)], dtype=dtype)
         raise KeyError(k)
@@ -131,6 +138,7 @@ class Var:
 def _kron_dense(a, b):
     torch, _ = _imp()
     if b is None: return a
+    if a is None: return b
     return torch.tensordot(a, b, dims=0)
 
 IMPL_OPS = {
@@ -410,9 +418,14 @@ def _meshgrid_dense(a, ia):
     return a[i].reshape(view).expand(shp).clone()
 def _rank1_dense(a, ia):
     torch, _ = _imp()
+    dims = set(v.dim() for v in a)
+    if dims not in ({1}, {2}): raise InvalidArgumentsDense("rank1TT of a list mixing vectors and matrices")
     out = a[0]
     for v in a[1:]: out = torch.tensordot(out, v, dims=0)
+    if dims == {2}:                               # (m1,n1,m2,n2,..) -> (m1,m2,..,n1,n2,..)
+        d = len(a); out = out.permute([2 * k for k in range(d)] + [2 * k + 1 for k in range(d)])
     return out
+class InvalidArgumentsDense(Exception): pass
 IMPL_OPS.update({"ORank1": lambda a, ia: _imp()[1].rank1TT(list(a)), "OMeshgrid": lambda a, ia: _imp()[1].meshgrid(list(a))[ia[0][0]]})
 DENSE_OPS.update({"ORank1": _rank1_dense, "OMeshgrid": _meshgrid_dense})
 
